@@ -35,6 +35,49 @@ CHECKS = {
             'Trusted: mc/refmodel/fit.py (150 lines, from widths only), '
             'NumPy/SciPy. Continuous inputs from finite alphabets; shapes '
             'bounded.', '3/C02'),
+    'C03': ('E1', 'model_checking',
+            'bounded exhaustive enumeration of shapes x models x smoother '
+            'codes x sweep counts; full unit bases through the real '
+            'smoother give M and N of S(x,b)=Mx+Nb, checked against the '
+            'reference operator (M + N A = I)',
+            'All shapes {2,3,4}^3 (+5-containing, thorough) x stretched '
+            'widths x 4 (8) models x real/complex x lr 0..7 x nu 1..4. '
+            'M + N A_ref = I decides "every exact solution is a fixed '
+            'point" for all solutions at once; plus affinity, zero residual '
+            'of the last relaxed block, untouched boundary sentinels, '
+            'compiled-vs-source kernels, and the banded solver for all '
+            'sizes n <= 14 (40).',
+            'Trusted: reference FIT operator (validated by C02), '
+            'numpy.linalg. The last block is identified up to sweep '
+            'orientation (one of the corner blocks).', '3/C03'),
+    'C04': ('E1', 'model_checking',
+            'bounded exhaustive enumeration of coarsening patterns x fine '
+            'shapes x widths; full fine basis through restriction(), full '
+            'coarse basis through prolongation(); matrices compared with '
+            'each other and a node-coordinate reference',
+            'All 7 patterns x all admissible shapes (coarsened directions '
+            '4,6(,8), others 2..5) x stretched width profiles. R and P are '
+            'obtained completely, so R = P^T, P >= 0, partition of unity, '
+            'P = reference interpolation hold for every field on these '
+            'grids; coarse nodes, summed material parameters, additive '
+            'boundary-preserving prolongation are checked per case.',
+            'Trusted: 40-line reference prolongation (linear in node '
+            'coordinates). Shapes bounded.', '3/C04'),
+    'C05': ('E1+E4', 'model_checking',
+            'exhaustive enumeration of grid shapes x cycle/semicoarsening/'
+            'line-relaxation/clevel/nu settings x scripted residual '
+            'answers, on the real control code with recorder leaves; traces '
+            'compared with a reference model of the hierarchy and V/W/F '
+            'recursion; conformance re-run with real numerics',
+            'Quick: all 512 shapes in {2..9}^3 x 39 single deviations, all '
+            'pairs of deviations on representative shapes, real-numerics '
+            'conformance on {2..4}^3. Thorough: all 59319 shapes 2..40 per '
+            'cycle type and one direction up to 1024. Every run compares '
+            'kernel dispatch, transfers (hierarchy), log events, per-cycle '
+            'digits, QC figure, header and termination with the reference.',
+            'Trusted: mc/refmodel/mgcycle.py (textbook recursion). The '
+            'stubbing is validated by identical traces with real kernels '
+            'on small shapes.', '3/C05'),
 }
 
 NOT_YET = "check not built yet in this round (planned in DESIGN.md section 3)"
